@@ -544,7 +544,12 @@ impl MerkleTree {
                     instructions.push(instruction);
                 }
                 Either::Right(verified_block_root_node) => {
-                    if verified_block_root_node.hash != unverified_block_root_node.hash {
+                    // The size of a node is not part of its own hash: a node that is taken
+                    // from the proof as it is (a hash section of one node) must also agree in
+                    // size with the node held here, which it would otherwise replace.
+                    if verified_block_root_node.hash != unverified_block_root_node.hash
+                        || verified_block_root_node.length != unverified_block_root_node.length
+                    {
                         return Err(HypercoreError::InvalidChecksum {
                             context: format!(
                                 "Invalid checksum at node {}, store {}",
